@@ -1,6 +1,7 @@
 import BlobfinderModel.Properties.C13
 import BlobfinderModel.Properties.C08
 import BlobfinderModel.Model.State
+import BlobfinderModel.Proofs.Pipeline
 /-!
 # C09 — no state leaks between calls through reused buffers and output arrays
 
@@ -138,6 +139,52 @@ theorem full_buffers_fresh :
     Gen.full_crop_bufs_fresh = true ∧ Gen.full_log_arg = "frame" ∧ Gen.full_log_out = "frame_buf"
       ∧ Gen.full_fft_input = "fft.rfft2(frame_buf)" := by
   refine ⟨rfl, rfl, rfl, rfl⟩
+
+/-! ### The concrete composed pipelines: no locality hypothesis left
+
+`Model.fastEval` (log scaling → correlation map → evaluation kernels) and `Model.fullEval` are the
+per-crop functions of the composed pipeline model; they provably read only the `2c × 2c` cells of
+the crop (`Model.fastEval_congr`, `Model.fullEval_congr`), so the history theorems hold for them
+without the `EvalLocal` assumption. -/
+
+theorem fastEval_local (L : ℚ → ℚ) (mask : ℤ → ℤ → ℚ) (c : ℕ) (hc : 0 < c) :
+    EvalLocal (fastEval L mask c) (2 * c) (2 * c) :=
+  fun g g' h => fastEval_congr L mask c hc g g' h
+
+theorem fullEval_local (c : ℕ) (hc : 0 < c) : EvalLocal (fullEval c) (2 * c) (2 * c) :=
+  fun g g' h => fullEval_congr c hc g g' h
+
+/-- **C09 for the crop-based pipeline as composed in the model, both back-ends, any history**: after
+any sequence of earlier calls on the same crop buffers and output arrays (whatever `post` leaves in
+the buffers), entry `i` of the last call is the per-crop pipeline applied to the zero-padded window
+of that call's frame around that call's peak `i` — a function of frame, mask and peak alone. -/
+theorem fast_history_spec (crop : CropFn ℚ) (hcrop : Defining crop) (L : ℚ → ℚ) (mask : ℤ → ℤ → ℚ)
+    (c : ℕ) (hc : 0 < c) (post : (ℤ → ℤ → ℚ) → (ℤ → ℤ → ℚ)) (earlier : List (Call ℚ)) (cl : Call ℚ)
+    (hfy : 0 ≤ cl.fy) (hfx : 0 ≤ cl.fx) (hn : 0 ≤ cl.n) (hb : 0 < cl.b) (st : St ℚ EvalOut)
+    (i : ℤ) (hi : 0 ≤ i ∧ i < cl.n) :
+    (runHistory fastArith crop (fastEval L mask c) post c (2 * c) (2 * c) st (earlier ++ [cl])).out i
+      = fastEval L mask c (windowCrop cl c i) := by
+  unfold runHistory
+  rw [List.foldl_append]
+  exact outputs_overwritten fastArith C08.fast_good crop hcrop _ post c _ _ (fastEval_local L mask c hc)
+    cl hfy hfx hn hb _ i hi
+
+/-- the same for the block loop of the full-frame pipeline (the "frame" it crops from is the
+frame-sized correlation map, recomputed from the frame buffer on every call) -/
+theorem full_history_spec (crop : CropFn ℚ) (hcrop : Defining crop) (c : ℕ) (hc : 0 < c)
+    (post : (ℤ → ℤ → ℚ) → (ℤ → ℤ → ℚ)) (earlier : List (Call ℚ)) (cl : Call ℚ)
+    (hfy : 0 ≤ cl.fy) (hfx : 0 ≤ cl.fx) (hn : 0 ≤ cl.n) (hb : 0 < cl.b) (st : St ℚ EvalOut)
+    (i : ℤ) (hi : 0 ≤ i ∧ i < cl.n) :
+    (runHistory fullArith crop (fullEval c) post c (2 * c) (2 * c) st (earlier ++ [cl])).out i
+      = fullEval c (windowCrop cl c i) := by
+  unfold runHistory
+  rw [List.foldl_append]
+  exact outputs_overwritten fullArith C08.full_good crop hcrop _ post c _ _ (fullEval_local c hc)
+    cl hfy hfx hn hb _ i hi
+
+/-- both back-ends satisfy the hypothesis of the two theorems above -/
+theorem backends_defining : Defining (pixelCrop (α := ℚ)) ∧ Defining (sliceCrop (α := ℚ)) :=
+  ⟨pixelCrop_defining, sliceCrop_defining⟩
 
 /-- Defect D1 (pre-repair): without the zero fill the slicing back-end is *not* defining, and a
 two-call history leaks: the value left by the first frame shows up in the second result. -/
